@@ -639,6 +639,12 @@ def intlike_cases(ctx):
     rng = ctx.rng('intlike')
     # canonical renderings longer than the interpreter's default digit limit, asked with the limit lifted / raised: they
     # ARE canonical base-10 renderings (under the default limit the conversion itself is refused: DONT-CARE there)
+    # exactly as many DIGITS as the limit allows, plus a sign: still convertible (the limit counts digits, not characters)
+    for limit, digits in ((None, 4300), (None, 4299), (640, 640), (640, 639), (1000, 1000)):
+        yield dict(kind='intlike', val={'$': 'pow10', 'n': digits - 1, 'str': True, 'sign': '-'}, want=True,
+                   cls='canonical-str-at-the-digit-limit', digit_limit=limit)
+        yield dict(kind='intlike', val={'$': 'pow10', 'n': digits - 1, 'str': True, 'sign': ''}, want=True,
+                   cls='canonical-str-at-the-digit-limit', digit_limit=limit)
     for digits in (4299, 4300, 4301, 4302, 5000, 20000):
         for limit in (0, 100000):
             for sign in ('', '-'):
